@@ -180,10 +180,14 @@ impl<'a> Gen<'a> {
                 1 => format!("({} + {})", self.any_path(), self.expr(Ty::Str, depth)),
                 _ => format!("string({})", self.expr(Ty::Any, depth)),
             },
-            Ty::Bool => match self.rng.below(3) {
+            Ty::Bool => match self.rng.below(6) {
                 0 => format!("bool({})", self.any_path()),
                 1 => format!("({} > {})", self.any_path(), self.expr(Ty::Int, depth)),
-                _ => format!("({} && {})", self.any_path(), self.expr(Ty::Bool, depth)),
+                2 => format!("({} && {})", self.any_path(), self.expr(Ty::Bool, depth)),
+                // a right operand that may be null / of any kind (`true && null` is false, not an error)
+                3 => format!("({} && {})", self.expr(Ty::Bool, depth), self.any_path()),
+                4 => format!("({} && ({} || null))", self.expr(Ty::Bool, depth), self.any_path()),
+                _ => format!("({} || {})", self.any_path(), self.expr(Ty::Bool, depth)),
             },
             Ty::Arr => match self.rng.below(2) {
                 0 => format!("array({})", self.any_path()),
